@@ -1818,7 +1818,9 @@ impl Sessions {
                 .flat_map(|sess| sess.exchanges.iter())
                 .filter_map(|exch| exch.as_ref())
                 .all(|exch| {
-                    !matches!(exch.role, Role::Responder(_)) || exch.exch_id != next_exch_id
+                    // Only the exchanges initiated by us draw their ids from this counter;
+                    // the ids of responder exchanges are chosen by the peer
+                    !matches!(exch.role, Role::Initiator(_)) || exch.exch_id != next_exch_id
                 })
             {
                 break;
